@@ -1,20 +1,20 @@
 """C17 - the command-line tool computes the same sets as the library.
 
 Decided here (equality of printed numbers / archived sets with the library's is value-level and not decided):
-  C17-R1  pipeline agreement: analyse_formulae runs the library's stages with corresponding arguments - parser flavour
-          chosen by the presence of the context archive, validate_props_and_rename_vars per formula, the graph from
-          get_extended_symbolic_graph(bn, m) with m the maximum over the formulae of the number of quantifier variables
-          (an accumulator only ever replaced by a larger value), EvalContext::from_multiple_trees(all trees) once,
-          extend_context_with_wild_cards iff extended and fed by validate_and_divide_wild_cards(tree, <sets loaded from the
-          archive with the graph's symbolic context>) for every tree, compute_steady_states of that graph, eval_node
-          per tree in file order with exactly these values;
-  C17-R2  loader: load_formulae pushes a line iff its trimmed form is non-empty and does not start with `#`, pushes the
-          trimmed form, in file order; read errors are returned as Err;
+  C17-R1  pipeline agreement, as equations between normalised terms at the eval_node call of analyse_formulae (helpers of the
+          module inlined): the tree is validate_props_and_rename_vars(parse(formula i)) with the extended parser iff a context
+          archive is given; the graph is get_extended_symbolic_graph(bn, m) with m an accumulator starting at 0 whose update is
+          max(m, number of quantifier variables of the validated tree); the steady states are compute_steady_states of that
+          graph; the context is EvalContext::from_multiple_trees(list of the validated trees, one per input formula, in input
+          order), extended by extend_context_with_wild_cards exactly when an archive is given, with the two maps accumulated
+          from validate_and_divide_wild_cards(tree, load_bdd_bundle(archive, symbolic context of that graph)) for every tree;
+  C17-R2  loader: load_formulae returns the filtered list { trim(line) | line in lines(file), trim(line) non-empty and not
+          starting with `#` } in file order (the filter condition is compared as a Boolean function); read errors are Err;
   C17-R3  option table: the PossibleValuesParser list, the match on the option string in main and the README list are
           the same four strings, mapped to four distinct PrintOptions;
   C17-R4  error discipline: on the paths of main, analyse_formulae, load_* and build_* no unwrap / expect is applied to a
-          Result whose error is an I/O, zip or parser / validator error unless the same value was tested with is_err
-          first; reviewed exceptions: terminal colour writes, SystemTime::elapsed, SymbolicContext::new(bn) (fails only
+          Result whose error is an I/O, zip or parser / validator error unless the error case was excluded on the path;
+          reviewed exceptions: terminal colour writes, SystemTime::elapsed, SymbolicContext::new(bn) (fails only
           beyond 65535 symbolic variables);
   C17-R5  the numbers printed by summarize_results derive from its `results` argument, which at each call site is the
           value just returned by eval_node for that formula; the archived set is the same value."""
